@@ -1845,6 +1845,10 @@ func genMvccSession(rng *rand.Rand, st *Stats) []string {
 	bannedG := map[int]bool{}
 	// C33: one session in sixty lets an entry expire while the database is running (a two-second
 	// TTL relative to the wall clock at execution, then a wait for the clock to pass it)
+	// C11: one normal-mode session in twenty ends a history with the NEWEST versions being entries
+	// that are already expired, kept by a compaction (an open reader holds the discard watermark
+	// down, so they are written as stale keys), then Close + Open and a new commit
+	expMaxSession := !managed && !inmem && rng.Intn(20) == 0
 	ttlSession := !inmem && rng.Intn(60) == 0
 	if params["ttl"] != "" {
 		ttlSession = params["ttl"] == "1"
@@ -2309,6 +2313,26 @@ func genMvccSession(rng *rand.Rand, st *Stats) []string {
 			if rng.Intn(2) == 0 {
 				ops = append(ops, fmt.Sprintf("compact this=0 id=0 adj=%s", pick(rng, "0.5", "0.5", "1.5")))
 			}
+		case expMaxSession && i > nops/2:
+			expMaxSession = false
+			st.Inc("scenario_expired_newest_then_reopen")
+			rd := nextID
+			nextID++
+			ops = append(ops, fmt.Sprintf("begin %d 0 0", rd), fmt.Sprintf("begin %d 1 0", nextID))
+			for j := 0; j < 1+rng.Intn(3); j++ {
+				ops = append(ops, fmt.Sprintf("set %d %s 0 %d %d %s 0", nextID, hx(keys[rng.Intn(len(keys))]), rng.Intn(256), now-1000, hx(genVal())))
+			}
+			ops = append(ops, fmt.Sprintf("commit %d 0", nextID), "flush",
+				fmt.Sprintf("compact this=0 id=0 adj=%s", pick(rng, "0.5", "1.5")))
+			nextID++
+			open = nil
+			ops = append(ops, "reopen")
+			k := keys[rng.Intn(len(keys))]
+			ops = append(ops, fmt.Sprintf("begin %d 1 0", nextID), fmt.Sprintf("set %d %s 0 1 0 %s 0", nextID, hx(k), hx(genVal())),
+				fmt.Sprintf("commit %d 0", nextID))
+			nextID++
+			ops = append(ops, fmt.Sprintf("begin %d 0 0", nextID), fmt.Sprintf("get %d %s", nextID, hx(k)), fmt.Sprintf("discard %d", nextID))
+			nextID++
 		case ttlSession && i > nops/3:
 			ttlSession = false
 			st.Inc("scenario_ttl_crossing")
